@@ -131,6 +131,9 @@ EXTRA_KINDS = {
 }
 
 
+ALL_KINDS = {**KINDS, **EXTRA_KINDS}
+
+
 def layouts(cx, kind_label):
     """evaluate every variable of the real graph once on symbolic independent values: name -> value (layout)"""
     kind, kw = (KINDS.get(kind_label) or EXTRA_KINDS[kind_label])
